@@ -132,6 +132,14 @@ impl Stdin for UnixStdin {
             unsafe { bytes.set_len(len + n.cast_unsigned()) };
         }
 
+        // The bytes come straight from the outside world, and a string must hold UTF-8.
+        if str::from_utf8(bytes).is_err() {
+            return Err(io::Error::new(
+                io::ErrorKind::InvalidData,
+                "Input line no be valid UTF-8 text",
+            ));
+        }
+
         Ok(buf)
     }
 }
